@@ -455,11 +455,11 @@ class Gen(object):
 
     def op_mkv(self):
         r = self.rng.random()
-        if r < 0.6:
+        if r < 0.5:
             fs = list(range(1, 1 + self.rng.choice([3, 4, 4, 5])))
-        elif r < 0.7:
+        elif r < 0.58:
             fs = [1]
-        elif r < 0.74:
+        elif r < 0.64:
             fs = [self.rng.choice([2, 3]) + i for i in range(self.rng.choice([1, 2, 3]))]      # starts above 1
         elif r < 0.78:
             # knots with gaps: integer queries between them go through _vnacal_rfi (orders 2..5, n up to 9)
@@ -507,7 +507,7 @@ class Gen(object):
     def op_getv(self):
         gapped = [h for h in self.visible() if self.pinfo.get(h, ("?",))[0] == "v" and len(self.pinfo[h][1]) >= 2
                   and self.pinfo[h][1][-1] - self.pinfo[h][1][0] >= len(self.pinfo[h][1])]
-        if gapped and self.rng.random() < 0.5:
+        if gapped and self.rng.random() < 0.7:
             h = self.rng.choice(gapped)
             fs = self.pinfo[h][1]
             return self.do("getv %d %d" % (h, self.rng.randrange(max(0, fs[0] - 1), fs[-1] + 2)))
@@ -1087,6 +1087,9 @@ def run(ctx):
         "hand-written model coq/CalTab/CalTabModel.v tied to the library by op-script correspondence on every run "
         "(the executable invariant inv_b, acyclicity of the `other` links included, is evaluated on every model state)",
         "extraction (ExtrOcamlBasic only) + ocaml/drv_caltab.ml printing glue; harness/caltab_harness.c",
+        "c16_values_vector rests on property C10's model and lemmas (coq/Interp/RfiModel.v; rfi_no_fault_l, rfi_hint_indep_l2, "
+        "rfi_at_knot_l) and on coq/Gen/RangeGen.v (EPS, cut-off factor, VNACAL_MAX_M regenerated by translate/ranges.py, "
+        "which checks/C10.py validates against the compiled code - checks/C16.py does not)",
         "numeric solver replaced by an oracle bit and the measured values of the script (ideal VNA)",
         "gcc, ASan/UBSan/LSan",
     ]
@@ -1185,6 +1188,7 @@ def run(ctx):
     cover = {"lines showing a solved unknown value": 0, "successful solves": 0, "handles deleted while held": 0,
              "handle values reused after release": 0, "calibrations added": 0}
     shapes = set()
+    interp_directed = INTERP_COMPARED[0]
     for k in range(nscripts):
         prof = profiles[k % len(profiles)]
         d = depth if k % 7 else 100
@@ -1236,7 +1240,8 @@ def run(ctx):
     ctx.extra["target_cases_reached"] = cover
     ctx.extra["table_shapes_reached (param allocation, calibration allocation)"] = sorted(shapes)
     ctx.extra["leaks_outside_scope_ignored"] = sorted(str(x) for x in R.ignored_leaks)
-    ctx.extra["vector_values_between_knots_compared (re and im tokens, rfi model vs library)"] = INTERP_COMPARED[0]
+    ctx.extra["vector_values_between_knots_compared (re and im tokens, rfi model vs library)"] = {
+        "directed and probes": interp_directed, "generated scripts": INTERP_COMPARED[0] - interp_directed}
     ctx.obligation("tie:vector values between knots", INTERP_COMPARED[0] > 0, "%d number tokens compared" % INTERP_COMPARED[0])
 
     # ------------------------------------------------------------------ verdict for broken Coq obligations
